@@ -264,7 +264,8 @@ func (w *vWriteRun) pushBlock(ext []int64, dropped int) bool {
 		f.truth[ch] = append(f.truth[ch], seg...)
 	}
 	w.blockNo++
-	recs, err := f.push(blen, ext, dropped)
+	sent := append([]int64(nil), ext...) // the block gets its own copy: the expectation must not follow what the code does to the list
+	recs, err := f.push(blen, sent, dropped)
 	if err != nil {
 		c.Violate("c06:process-error", "ProcessSegments error: %v (history %v)", err, w.hist)
 		return false
@@ -1017,6 +1018,17 @@ func vRunWriteHistory(c *vCase, prop string) {
 				}
 				if vChance(r, 0.4) {
 					dropped = vPick(r, 1, 3, 100000)
+				}
+			}
+			if prop == "C20" && vChance(r, 0.08) {
+				// a raw-data block is being collected while the run is written: it takes copies of the blocks and must
+				// leave what goes into the run's files alone
+				if f, err := os.CreateTemp(c.Dir, "raw_*_inprogress.npz"); err == nil {
+					if w.f.ds.ArchiveDataBlock(vPick(r, 1, 3*w.nsamp, 20*w.nsamp), f, f.Name()+".npz") == nil {
+						c.Cov("raw_data_requests_during_a_run", 1)
+					} else {
+						f.Close()
+					}
 				}
 			}
 			ok = w.pushBlock(ext, dropped)
